@@ -471,12 +471,15 @@ def main():
             else:
                 ref, ref_err = reference_length(nodes)
                 acc = 2.0 ** -24 * max(ref, float(epsabs)) + ref_err
-                if abs(model - ref) > acc:
+                if abs(model - ref) > acc and not (ref < 2.0 ** -4 and abs(model - ref) <= 4 * float(epsabs)):
                     res.mismatch("agse_length", rc, model, ref, "model vs graded Gauss-Legendre reference: %.3e > %.3e"
                                  % (abs(model - ref), acc))
                 if abs(got - ref) > acc:
-                    res.failure("length-inaccurate:%s" % fam, "%d nodes, dim %d: %r vs reference %r (+-%.1e)"
-                                % (N, dim, got, ref, ref_err), rc)
+                    # class of the input: a curve much shorter than 1, where the ABSOLUTE tolerance epsabs = 2^-26 of the
+                    # QUADPACK call is what is met (the relative accuracy degrades like 2^-26 / length)
+                    small = ref < 2.0 ** -4 and abs(got - ref) <= 4 * float(epsabs)
+                    res.failure("length-inaccurate:absolute-tolerance-regime" if small else "length-inaccurate:%s" % fam,
+                                "%d nodes, dim %d: %r vs reference %r (+-%.1e)" % (N, dim, got, ref, ref_err), rc)
             res.sample({"family": fam, "nodes": N, "last": m.last, "ier": m.ier, "nres": int(m.info[1]), "robust": robust,
                         "extrapolated": extrap, "impl": got, "model": model, "diff_in_uS": float(diff) / (U * S) if S else 0.0,
                         "rounds": m.rounds, "oracle_keys": m.nkeys})
